@@ -111,7 +111,7 @@ func cmdWorker(args []string) int {
 			defer f.Close()
 		}
 	}
-	startWatchdog(c, *tier == "thorough")
+	startWatchdog(c, *tier == "thorough", u.StallSec)
 	if p.SelfTest != nil {
 		if err := p.SelfTest(); err != nil {
 			rep.SelfTestFail = err.Error()
@@ -133,7 +133,7 @@ func cmdWorker(args []string) int {
 // back): the worker exits with a distinctive status when its heap passes a
 // limit or when one case makes no progress for a long time. The driver then
 // re-runs the shard in trace mode to pin the case (kind crash / hang).
-func startWatchdog(c *Ctx, thorough bool) {
+func startWatchdog(c *Ctx, thorough bool, stallSec int) {
 	limitMB := int64(6144)
 	if v, err := strconv.ParseInt(os.Getenv("VERIF_MEM_LIMIT_MB"), 10, 64); err == nil && v > 0 {
 		limitMB = v
@@ -141,6 +141,12 @@ func startWatchdog(c *Ctx, thorough bool) {
 	stall := 5 * time.Minute
 	if thorough {
 		stall = 15 * time.Minute
+	}
+	if stallSec > 0 { // units whose cases take milliseconds say so; still two orders of magnitude of slack
+		stall = time.Duration(stallSec) * time.Second
+		if thorough {
+			stall *= 3
+		}
 	}
 	go func() {
 		last := int64(-2)
